@@ -488,6 +488,58 @@ def _keyword_table_from_const(S, f):
     return {'keywords': kw, 'default': default, 'line': f['line'], 'scrutinee': val}
 
 
+def _keywords_by_evaluation(F, f):
+    fn = next((g for g in F.all_fns if g.path.endswith('>::from') and 'lexer::Token' in g.path and 'From<&' in g.path and g.arg_count == 1), None)
+    if fn is None:
+        return None
+    lits, seen = set(), set()
+
+    def walk(x):
+        if isinstance(x, dict):
+            if x.get('k') == 'const' and isinstance(x.get('str'), str):
+                lits.add(x['str'])
+            ci = x.get('const_item')
+            if ci and ci not in seen:
+                seen.add(ci)
+                walk((F.consts.get(ci) or {}).get('body'))
+            for v in x.values():
+                walk(v)
+        elif isinstance(x, list):
+            for v in x:
+                walk(v)
+    walk(fn.j['blocks'])
+    walk(fn.j.get('promoted'))
+    if not lits:
+        return None
+
+    def answer(s_):
+        res = set()
+        for p in AbsInt(F, fn, {'_1': ('str', s_)}).run():
+            if p.exit == 'diverge':
+                continue
+            if p.exit != 'return':
+                return None
+            r = simp(p.env.get('_0'))
+            r = p._closed(r) if hasattr(p, '_closed') else r
+            nm = variant_name(r)
+            if nm is None:
+                return None
+            res.add(nm)
+        return next(iter(res)) if len(res) == 1 else None
+    dflt = answer('\x00geen sleutelwoord')
+    if dflt is None:
+        return None
+    kw = {}
+    for s_ in sorted(lits):
+        a = answer(s_)
+        if a is None:
+            return None
+        if a != dflt:
+            kw[s_] = a
+    pname = next((i['pat']['name'] for i in f['inputs'] if not i.get('self') and i['pat'].get('k') == 'p_ident'), 'value')
+    return {'keywords': kw, 'default': '%s(%s)' % (dflt, pname), 'line': f['line'], 'scrutinee': pname}
+
+
 def keyword_table(ctx):
     def build():
         S = ctx.syn()
@@ -498,6 +550,11 @@ def keyword_table(ctx):
             if alt is not None:
                 return alt
         if len(ms) != 1:
+            # neither one match nor the table idiom above (an if-chain, a table behind other tests): the conversion is evaluated for
+            # every string literal it or a constant it names contains, and for a word that is none of them
+            alt = _keywords_by_evaluation(ctx.facts(), f)
+            if alt is not None:
+                return alt
             raise CheckerError('keyword table: expected one match in From<&str> for Token')
         kw = {}
         default = None
